@@ -4,4 +4,7 @@ mod multiplication;
 mod share_conversion_aby;
 pub(crate) mod step;
 pub use share_conversion_aby::{convert_to_fp25519, expand_shared_array_in_place};
+// verification hook H7: the (otherwise unused) integer multiplication circuit is reachable from the harness
+#[cfg(all(test, ipa_verif))]
+pub use multiplication::integer_mul;
 pub mod sigmoid;
